@@ -3,7 +3,9 @@ import json
 import sys
 
 from harness.workers import wamp_common as wc
-from autobahn.wamp import message
+import inspect
+
+from autobahn.wamp import message, role
 from autobahn.wamp.serializer import Serializer
 
 job = json.load(sys.stdin)
@@ -12,5 +14,8 @@ out = {
     "type_map": {str(k): v.__name__ for k, v in Serializer.MESSAGE_TYPE_MAP.items()},
     "patterns": {n: getattr(message, n).pattern for n in job.get("patterns", [])},
     "fields": {c: wc.field_names(getattr(message, c)) for c in wc.CLASSES},
+    "role_features": {r: [p.name for p in inspect.signature(cls.__init__).parameters.values()
+                          if p.name != "self" and p.kind == p.POSITIONAL_OR_KEYWORD]
+                      for r, cls in role.ROLE_NAME_TO_CLASS.items()},
 }
 json.dump(out, sys.stdout)
